@@ -247,6 +247,7 @@ theorem C02_const_union_roundtrip (fname : Str → Str) (vname : J → Str) (one
     | const v => simp [sameAlt, J.scalarEq]
     | null => simp [validAlt, J.isNull]
     | sch t => simp [Alt.isConst, Alt.isNullAlt] at this
+    | free k => simp [Alt.isConst, Alt.isNullAlt] at this
   simp [judgeRoot, judgeRunU, hv, C02_const_union_accepts_declared fname vname alts hu s hs, hany, hall]
 
 /-- non-vacuity: `oneOf: [{const: red}, {const: green}, {type: null}]` -/
@@ -344,5 +345,28 @@ theorem C02_cex_relaxed_drops_array :
 /-- … while strings, known or not, round-trip -/
 example : judgeRoot false [.const "red".toList, .sch (.arr .str), .sch .str] (rootOf id (fun _ => "V".toList) false [.const "red".toList, .sch (.arr .str), .sch .str]) (st "red") = true ∧
     judgeRoot false [.const "red".toList, .sch (.arr .str), .sch .str] (rootOf id (fun _ => "V".toList) false [.const "red".toList, .sch (.arr .str), .sch .str]) (st "zzz") = true := by decide
+
+/-! ### free-form alternatives (`serde_json::Value` variants) -/
+
+/-- a `Value` variant reads every document and writes it back unchanged: a union with a free-form alternative never refuses -/
+theorem C02_value_variant_accepts_everything (fname : Str → Str) (vname : J → Str) (pre post : List Alt) (k : FreeKind) (d : J) :
+    (rtU (unionTy fname vname (pre ++ .free k :: post)) d).isSome = true := by
+  rw [unionTy_append]
+  cases h : rtU (unionTy fname vname pre ++ unionTy fname vname (.free k :: post)) d with
+  | some o => rfl
+  | none =>
+    have := (rtU_none_iff _ d).mp h .value (by simp [unionTy])
+    simp [rtVar] at this
+
+/-- finding F02-17: so a document that is valid against NO alternative is accepted (here: the string `"x"` by
+`oneOf: [boolean, {type: object, additionalProperties: false}]`) -/
+theorem C02_cex_value_variant_accepts_invalid :
+    [Alt.sch .bool, .free .objClosed].any (fun a => validAlt true a (st "x")) = false ∧
+    judgeRoot true [.sch .bool, .free .objClosed] (rootOf id (fun _ => []) true [.sch .bool, .free .objClosed]) (st "x") = false ∧
+    classesU id (fun _ => []) true [.sch .bool, .free .objClosed] (st "x") = [.valueVariantAcceptsAnything] := by decide
+
+/-- … while every object round-trips through a free-form object alternative -/
+example : judgeRoot true [.sch .bool, .free .objNull] (rootOf id (fun _ => []) true [.sch .bool, .free .objNull])
+    (.obj [("k".toList, .arr [.num 1 0, .null])]) = true := by decide
 
 end Oas3.Codec.C02
